@@ -550,6 +550,35 @@ def stepC14 (ts : List String) : String :=
     | _, _ => "bad-op"
   | _ => "bad-op"
 
+/-- `C15 est <method> <c1> <c2> rows cols axis(n|0|1) values…` (rationals) → per-lane estimates -/
+def stepC15 (ts : List String) : String :=
+  match ts with
+  | "est" :: m :: c1 :: c2 :: rows :: cols :: ax :: rest =>
+    match rat? c1, rat? c2, rows.toNat?, cols.toNat?, ratList? rest with
+    | some c1, some c2, some rows, some cols, some xs =>
+      if xs.length ≠ rows * cols then "bad-op" else
+      let mat := (List.range rows).map (fun i => (xs.drop (i * cols)).take cols)
+      let axis : Option Nat := if ax == "n" then none else ax.toNat?
+      let est : Option (List Rat → Rat) :=
+        if m == "median" then some Robust.median
+        else if m == "mean" then some Robust.mean
+        else if m == "iqr" then some (Robust.iqr c1)
+        else if m == "mad" then some (Robust.mad c1 c2)
+        else if m == "qn" then some (Robust.qn c1)
+        else if m == "sn" then some (Robust.sn c1)
+        else if m == "gapper" then some (Robust.gapper c1)
+        else if m == "var" then some Robust.variance
+        else none
+      match est with
+      | some e => s!"ok {showRats (Robust.alongAxis e mat axis)}"
+      | none => "bad-op"
+    | _, _, _, _, _ => "bad-op"
+  | "z" :: loc :: sc :: rest =>
+    match rat? loc, rat? sc, ratList? rest with
+    | some loc, some sc, some xs => s!"ok {showRats (Robust.zscore loc sc xs)}"
+    | _, _, _ => "bad-op"
+  | _ => "bad-op"
+
 def step (line : String) : String :=
   match (line.trimAscii.toString.splitOn " ").filter (· ≠ "") with
   | "C03" :: rest => stepC03 rest
@@ -565,6 +594,7 @@ def step (line : String) : String :=
   | "C12" :: rest => stepC12 rest
   | "C13" :: rest => stepC13 rest
   | "C14" :: rest => stepC14 rest
+  | "C15" :: rest => stepC15 rest
   | "C04" :: rest => stepC04 rest
   | "C10" :: rest => stepC10 rest
   | _ => "bad-op"
